@@ -137,6 +137,8 @@ package oauth2
 //@   requires c != nil && request != nil && !stored[request] && !shared[request] && !shared[request.GetSession()]
 //@   modifies acc_exists, ref_active, faults, validated_n, tx_escaped
 //@   ensures [C06.lookup-then-validate] err == nil ==> validated_n[code] > old(validated_n[code])
+// the hint of the replay refusal is one of four constant texts: what a failing revocation said goes to the debug field only
+//@   assert @call(WithHint)#4 [C20.replay-hint-carries-no-internal-error-text] $arg1 == "The authorization code has already been used." || $arg1 == "The authorization code has already been used." + " Additionally, an error occurred during processing the access token revocation." || $arg1 == "The authorization code has already been used." + " Additionally, an error occurred during processing the refresh token revocation." || $arg1 == "The authorization code has already been used." + " Additionally, an error occurred during processing the access token revocation." + " Additionally, an error occurred during processing the refresh token revocation."
 //@   ensures [C01.replay-refused] used ==> err != nil
 //@   ensures [C01.replay-error-class] used && c.CanHandleTokenEndpointRequest(ctx, request) && old(request.GetClient().GetGrantTypes()).Has("authorization_code") ==> ekind(err) == "invalid_grant" || ekind(err) == "server_error"
 //@   ensures [C01.replay-invalid-grant-unless-fault] used && c.CanHandleTokenEndpointRequest(ctx, request) && old(request.GetClient().GetGrantTypes()).Has("authorization_code") && faults == old(faults) && old(code_req[sig]) != nil ==> ekind(err) == "invalid_grant"
@@ -492,6 +494,9 @@ package oauth2
 //@   modifies code_exists, code_active, code_rid, code_client, code_req, stored, faults, tx_escaped, ar.GetSession().GetExpiresAt(fosite.AuthorizeCode), ar.GetRequestForm(), mapof(resp.GetParameters()), resp.GetCode(), ar.DidHandleAllResponseTypes()
 //@   ensures [C13.code-params] forall k string :: (k in resp.GetParameters()) ==> (old(k in resp.GetParameters()) || k == "code" || k == "state" || k == "scope")
 //@   ensures [C01.issue-touches-only-the-new-code] ar.GetID() == old(ar.GetID()) && (forall s string :: old(code_exists[s]) ==> code_exists[s] && code_active[s] == old(code_active[s]) && code_rid[s] == old(code_rid[s]) && code_client[s] == old(code_client[s]) && code_req[s] == old(code_req[s])) && (forall s string :: code_exists[s] && !old(code_exists[s]) ==> code_rid[s] == ar.GetID()) && (forall s1 string, s2 string :: code_exists[s1] && !old(code_exists[s1]) && code_exists[s2] && !old(code_exists[s2]) ==> s1 == s2)
+// the code's lifetime is recorded in the session before the request is handed to the store (and the stored request shares that session)
+//@   assert @call(CreateAuthorizeCodeSession)#1 [C07.code-expiry-recorded-before-store] ar.GetSession().GetExpiresAt(fosite.AuthorizeCode) == $now + c.Config.GetAuthorizeCodeLifespan(ctx) && $arg3.GetSession() == ar.GetSession()
+//@   assert @call(CreateAuthorizeCodeSession)#1 [C02.code-expiry-recorded-before-store] ar.GetSession().GetExpiresAt(fosite.AuthorizeCode) == $now + c.Config.GetAuthorizeCodeLifespan(ctx) && $arg3.GetSession() == ar.GetSession()
 //@   assert @call(CreateAuthorizeCodeSession)#1 [C02.stored-code-keeps-redirect-uri] len(c.Config.GetSanitationWhiteList(ctx)) == 0 ==> formget($arg3.GetRequestForm(), "redirect_uri") == old(formget(ar.GetRequestForm(), "redirect_uri"))
 
 //@ func (*AuthorizeExplicitGrantHandler).HandleAuthorizeEndpointRequest
